@@ -62,7 +62,9 @@ func TestGvcReplay(t *testing.T) {
 			}
 		}
 	case "(ImportDecls).PrintImports":
-		decls := ImportDecls{{Path: "b.com/z"}, {Path: "a.com/y"}, {Path: "b.com/z"}, {Path: "a.com/x", Trusted: true}, {Path: "a.com/y"}}
+		// (paths whose order changes under the mapping, and paths that map to the same Require)
+		decls := ImportDecls{{Path: "b.com/z"}, {Path: "a.com/y"}, {Path: "b.com/z"}, {Path: "a.com/x", Trusted: true}, {Path: "a.com/y"},
+			{Path: "m.org/go/util"}, {Path: "m.org/go-dep"}, {Path: "m.org/a_b"}, {Path: "m.org/a-b"}, {Path: "m.org/a.b"}, {Path: "m.org/go.v2/x"}, {Path: "m.org/go/v2"}}
 		lines := strings.Split(decls.PrintImports(), "\n")
 		want := map[string]bool{}
 		for _, d := range decls {
